@@ -174,6 +174,10 @@ theorem pacRelocate_spec {x : Channel} (h : ChInv x) (row : Nat) :
   have hroll := h.roll_pos
   have : x.roll ≠ 0 := by omega
   simp only [this, if_false]
+  have hcl : (!pacRow1Clamped && decide (row + 1 < x.roll)) = false := by
+    have : pacRow1Clamped = true := by decide
+    simp [this]
+  simp only [hcl, Bool.false_eq_true, if_false]
   by_cases hne : (row + 1 - x.roll != x.row1) = true
   · simp only [hne, if_true]
     have hx' : ChInv { x with row1 := row + 1 - x.roll } ∨ True := Or.inr trivial
